@@ -4198,10 +4198,22 @@ pub fn search(line: &str, ctx: &mut Ctx) {
         variants.push(([&old[..], &tail[..]].concat(), [&new[..], &tail[..]].concat()));
         variants.push(([&head[..], &old[..], &tail[..]].concat(), [&head[..], &new[..], &tail[..]].concat()));
     }
+    // the request's own tokenizer first, then lines and words (the other tokenizers add little for an amplified text)
+    let hd: Vec<&str> = parts[0].split_whitespace().collect();
+    let mut kinds: Vec<Kind> = vec![];
+    for k in [hd.get(1).and_then(|x| Kind::parse(x)), Some(Kind::Lines), Some(Kind::Words)].into_iter().flatten() {
+        if !kinds.contains(&k) && Kind::DIFF.contains(&k) {
+            kinds.push(k);
+        }
+    }
+    let t_start = Instant::now();
     let mut idx = 0u64;
     for (o, n) in variants {
+        if t_start.elapsed() > Duration::from_secs(100) {
+            break;
+        }
         let big = o.len() + n.len() > 20_000;
-        for kind in Kind::DIFF {
+        for &kind in &kinds {
             if big && kind != Kind::Lines {
                 continue;
             }
